@@ -642,6 +642,49 @@ def d5(cx: Cx, ob: Ob) -> None:
             ob.violate(fn.qualname, where(fn, ev.line), "rows are written only conditionally", detail="filter")
 
 
+def _replace_chain(t):
+    """``x.replace(a1, b1).replace(a2, b2)`` -> (x, [(a1, b1), (a2, b2)]) for literal arguments, in application order."""
+    chain = []
+    while op(t) == "call" and op(t[1]) == "attr" and t[1][2] == "replace" and len(t[2]) == 2 and all(is_const(x) and isinstance(x[1], str) for x in t[2]) and not t[3]:
+        chain.append((t[2][0][1], t[2][1][1]))
+        t = t[1][1]
+    return t, chain[::-1]
+
+
+def _codec_verdict(cx: Cx, ob: Ob, fld: str, read_chain):
+    """None when the replace chain the reader applies to ``fld`` undoes the one _get_shacl_line applies, for EVERY
+    string; otherwise the reason.  The writing chain (leaving aside Turtle's own backslash escapes, which the
+    Turtle parser undoes) has to be the classical escape scheme - first the escape character E itself
+    (E -> E + code0), then every other character c -> E + code, codes of one length, pairwise distinct, none of
+    the c in a code - and the reader the reverse chain of the inverse steps.  Each step then replaces something
+    that cannot occur in the string it is applied to except where the matching step put it, so it is undone
+    exactly; without the first step a literal 'E + code' in the input is indistinguishable from an encoded c."""
+    wfn = cx.model.functions.get(f"{API}._get_shacl_line")
+    if wfn is None:
+        return "the writer _get_shacl_line was not found"
+    ws = cx.summary(wfn, ob.id)
+    wchain = None
+    for t, _, _ in ws.all_terms():
+        for x in subterms(t):
+            base, ch = _replace_chain(x)
+            if ch and base == ("param", fld) and (wchain is None or len(ch) > len(wchain)):
+                wchain = ch
+    wchain = [(o, n) for o, n in (wchain or []) if not n.startswith("\\")]
+    if not wchain:
+        return f"_get_shacl_line writes `{fld}` without the matching encoding, so ordinary text containing {read_chain[0][0]!r} is altered on reading"
+    if [(n, o) for o, n in reversed(wchain)] != list(read_chain):
+        return f"it is not the reverse of the writer's chain {wchain}"
+    E = wchain[0][0]
+    codes = [n for _, n in wchain]
+    if len(E) != 1 or not wchain[0][1].startswith(E) or len(wchain[0][1]) < 2:
+        return f"the writer's chain {wchain} does not escape its own escape character first: an input that already contains {codes[0]!r} is read back as {wchain[0][0]!r}"
+    if any(not n.startswith(E) for n in codes) or len({len(n) for n in codes}) != 1 or len(set(codes)) != len(codes):
+        return f"the codes {codes} of the writer's chain are not distinct sequences of one length introduced by {E!r}"
+    if any(E in o or any(o in n for n in codes) for o, _ in wchain[1:]):
+        return f"a character encoded later occurs inside an earlier code of the writer's chain {wchain}"
+    return None
+
+
 @obligation("C14-D6", "SHACL reader roles: from_shacl's query binds sh:prefix / sh:namespace / sh:pattern to the variables it selects, in the order the rows are unpacked into Record(prefix, uri_prefix, pattern)", floor=1)
 def d6(cx: Cx, ob: Ob) -> None:
     fn = cx.fn(f"{CONV}.from_shacl", ob.id)
@@ -701,6 +744,19 @@ def d6(cx: Cx, ob: Ob) -> None:
                 a, b, c = tgt[1]
                 def strip_str(v):
                     return v[2][0] if op(v) == "call" and v[1] == ("builtin", "str") and len(v[2]) == 1 else v
+                # a value read through a chain of str.replace calls is the reading half of a codec whose writing
+                # half is in _get_shacl_line: the two must be inverse (see _codec_verdict)
+                decoded = {}
+                for fld, var in (("prefix", a), ("uri_prefix", b)):
+                    base, chain = _replace_chain(kw.get(fld))
+                    if chain and strip_str(base) == var:
+                        decoded[fld] = chain
+                        kw[fld] = base
+                        verdict = _codec_verdict(cx, ob, fld, chain)
+                        if verdict is None:
+                            ob.site(f"{fn.where} {fn.qualname}", f"{fld} decoded by {chain}: the exact inverse of what _get_shacl_line encodes")
+                        else:
+                            ob.violate(fn.qualname, fn.where, f"from_shacl decodes `{fld}` with {chain}: {verdict}", witness="a URI prefix that already contains the escape sequence (e.g. 'http://x/a%20b/') reads back as a different string", detail=f"codec:{fld}")
                 if strip_str(kw.get("prefix")) != a or strip_str(kw.get("uri_prefix")) != b:
                     ob.violate(fn.qualname, fn.where, "from_shacl builds Record(prefix, uri_prefix) from the wrong row positions", detail="record-roles")
                 pv = kw.get("pattern")
